@@ -1,9 +1,11 @@
 (* C01 lifted: the feasibility invariant along every micro-state of state.step, the middleware and all
    states reachable under any action sequence - provided no applied TRANSIT transition took a job in
-   process (sides, a predicate on the recorded micro-log the monitors evaluate on the implementation). *)
+   process (sides, a predicate on the recorded micro-log the monitors evaluate on the implementation).
+   Instance of the generic lifting SMP/LiftSide.v with P := FE i, side := transit_side_b. *)
 From Coq Require Import List ZArith Bool Arith Lia.
 From JSL Require Import Base.Res Base.ListX SM.Types SM.Util SM.Handler SM.Step SM.Middleware SM.Inv
-  SMP.ListLemmas SMP.Frame SMP.WF SMP.Preserve SMP.StepInv SMP.Clock SMP.ClockStep SMP.ClockMain SMP.FeasView SMP.Feasible SMP.FeasSound.
+  SMP.ListLemmas SMP.Frame SMP.WF SMP.Preserve SMP.StepInv SMP.Clock SMP.ClockStep SMP.ClockMain SMP.LiftSide
+  SMP.FeasView SMP.Feasible SMP.FeasSound.
 Import ListNotations.
 Close Scope Z_scope.
 
@@ -12,166 +14,37 @@ Variable sigma : oracle.
 Variable i : inst.
 Hypothesis Hnn : inst_nonneg_b i = true.
 
-Definition sides (lg : mlog) : Prop := forall tr y, In (tr, y) lg -> transit_side_b tr y = true.
-Definition all_FE (lg : mlog) : Prop := forall tr y, In (tr, y) lg -> NO y /\ FE i y.
+Definition sides : mlog -> Prop := sidesG transit_side_b.
+Definition sides_b : mlog -> bool := sidesG_b transit_side_b.
+Definition reachS : nat -> state -> Z -> bool -> result -> mw -> Prop := reachG sigma i transit_side_b.
+Definition runS : nat -> state -> Z -> bool -> list Z -> option (result * mw) := runG sigma i transit_side_b.
 
-Lemma all_FE_snoc lg tr y : all_FE lg -> NO y -> FE i y -> all_FE (lg ++ [(tr, y)]).
-Proof.
-  intros H N F tr' y' Hin. apply in_app_iff in Hin. destruct Hin as [Hin|[E|[]]]; eauto. inversion E; subst; auto.
-Qed.
+Lemma FE_apply x tr x' :
+  NO x -> FE i x -> is_transition_valid x tr = Ok true -> apply_transition sigma i x tr = Ok x' ->
+  transit_side_b tr x' = true -> FE i x'.
+Proof. intros. eapply apply_preserves_FE; eauto. Qed.
 
-Lemma process_log_ext : forall trs x n lg x' n' lg',
-  process_transitions sigma i trs x n lg = Ok (x', n', lg') -> exists d, lg' = lg ++ d.
-Proof.
-  induction trs as [|tr r IH]; intros x n lg x' n' lg' H; simpl in H.
-  - inversion H; subst. exists []. rewrite app_nil_r. reflexivity.
-  - destruct (is_transition_valid x tr) as [v|e]; simpl in H; [|discriminate]. destruct v.
-    + destruct (apply_transition sigma i x tr) as [x1|e]; simpl in H; [|discriminate].
-      destruct (IH _ _ _ _ _ _ H) as [d Hd]. exists ((tr, x1) :: d). rewrite Hd, <- app_assoc. reflexivity.
-    + eauto.
-Qed.
+Lemma FE_now x t : FE i x -> (s_now x <= t)%Z -> FE i (set_now x t).
+Proof. apply FE_set_now. Qed.
 
-Lemma process_FE : forall trs x n lg x' n' lg',
-  NO x -> FE i x -> all_FE lg -> process_transitions sigma i trs x n lg = Ok (x', n', lg') -> sides lg' ->
-  NO x' /\ FE i x' /\ all_FE lg' /\ s_now x' = s_now x.
-Proof.
-  induction trs as [|tr r IH]; intros x n lg x' n' lg' N F L H Hs; simpl in H.
-  - inversion H; subst; auto.
-  - destruct (is_transition_valid x tr) as [v|e] eqn:Ev; simpl in H; [|discriminate]. destruct v.
-    + destruct (apply_transition sigma i x tr) as [x1|e] eqn:Ea; simpl in H; [|discriminate].
-      pose proof (apply_preserves_NO sigma i Hnn _ _ _ N Ea) as N1.
-      destruct (process_log_ext _ _ _ _ _ _ _ H) as [d Hd].
-      assert (S1 : transit_side_b tr x1 = true).
-      { apply Hs. rewrite Hd. apply in_app_iff. left. apply in_app_iff. right. left. reflexivity. }
-      pose proof (apply_preserves_FE sigma i Hnn _ _ _ N F Ev Ea S1) as F1.
-      destruct (IH _ _ _ _ _ _ N1 F1 (all_FE_snoc _ _ _ L N1 F1) H Hs) as [A [B [C D]]].
-      split; auto. split; auto. split; auto. rewrite D. eapply apply_now; eauto.
-    + eapply IH; eauto.
-Qed.
-
-(* the result of a step: xq is the state before the clock adjustment of a terminal result *)
 Definition result_FE (lg : mlog) (x' : state) (offers : list transition) : Prop :=
-  all_FE lg /\ exists xq, NO xq /\ FE i xq /\ (x' = xq \/ (offers = [] /\ exists z, x' = set_now xq z)).
-
-Lemma loop_exit_FE x x' offers lg lg' :
-  NO x -> FE i x -> all_FE lg ->
-  (if all_in_output i x
-   then match max_done_end x with
-        | Ok (Some z) => SOk (set_now x z) [] lg
-        | Ok None => SOk x [] lg
-        | Err e => SRaise e end
-   else match get_possible_transitions i x with
-        | Ok offers => SOk x offers lg
-        | Err e => SRaise e end) = SOk x' offers lg' -> result_FE lg' x' offers.
-Proof.
-  intros N F L H. destruct (all_in_output i x).
-  - destruct (max_done_end x) as [[z|]|]; [| |discriminate]; injection H as E1 E2 E3; subst x' offers lg';
-      (split; [exact L|]); exists x; (split; [exact N|]); (split; [exact F|]); [right; eauto|left; reflexivity].
-  - destruct (get_possible_transitions i x); [|discriminate]. injection H as E1 E2 E3. subst x' offers lg'.
-    split; [exact L|]. exists x. split; [exact N|]. split; [exact F|]. left; reflexivity.
-Qed.
-
-Lemma timed_loop_log_ext fuel : forall x0 x timed lg x' offers lg',
-  timed_loop sigma i fuel x0 x timed lg = SOk x' offers lg' -> exists d, lg' = lg ++ d.
-Proof.
-  induction fuel as [|f IH]; intros x0 x timed lg x' offers lg' H; simpl in H.
-  - destruct timed; [|discriminate]. exists []. rewrite app_nil_r.
-    destruct (all_in_output i x); [destruct (max_done_end x) as [[z|]|]|destruct (get_possible_transitions i x)];
-      try discriminate; injection H; intros; subst; reflexivity.
-  - destruct timed as [|t ts].
-    + exists []. rewrite app_nil_r.
-      destruct (all_in_output i x); [destruct (max_done_end x) as [[z|]|]|destruct (get_possible_transitions i x)];
-        try discriminate; injection H; intros; subst; reflexivity.
-    + destruct (process_transitions sigma i (t :: ts) x 0 lg) as [[[x1 nerr] lg1]|e] eqn:Ep; [|discriminate].
-      destruct (Nat.ltb 0 nerr); [discriminate|].
-      destruct (jump_to_event i x1) as [tt|e]; [|discriminate].
-      destruct (create_timed_transitions i (set_now x1 tt)) as [timed'|e]; [|discriminate].
-      destruct (process_log_ext _ _ _ _ _ _ _ Ep) as [d1 Hd1]. destruct (IH _ _ _ _ _ _ _ H) as [d2 Hd2].
-      exists (d1 ++ d2). rewrite Hd2, Hd1, app_assoc. reflexivity.
-Qed.
-
-Lemma sides_prefix lg d : sides (lg ++ d) -> sides lg.
-Proof. intros H tr y Hin. apply H. apply in_app_iff. left; auto. Qed.
-
-Lemma timed_loop_FE fuel : forall x0 x timed lg x' offers lg',
-  NO x -> FE i x -> all_FE lg -> timed_loop sigma i fuel x0 x timed lg = SOk x' offers lg' -> sides lg' ->
-  result_FE lg' x' offers.
-Proof.
-  induction fuel as [|f IH]; intros x0 x timed lg x' offers lg' N F L H Hs; simpl in H.
-  - destruct timed; [|discriminate]. eapply loop_exit_FE; eauto.
-  - destruct timed as [|t ts]; [eapply loop_exit_FE; eauto|].
-    destruct (process_transitions sigma i (t :: ts) x 0 lg) as [[[x1 nerr] lg1]|e] eqn:Ep; [|discriminate].
-    destruct (Nat.ltb 0 nerr); [discriminate|].
-    destruct (jump_to_event i x1) as [tt|e] eqn:Ej; [|discriminate].
-    destruct (create_timed_transitions i (set_now x1 tt)) as [timed'|e]; [|discriminate].
-    destruct (timed_loop_log_ext _ _ _ _ _ _ _ _ H) as [d Hd].
-    assert (S1 : sides lg1) by (rewrite Hd in Hs; eapply sides_prefix; eauto).
-    destruct (process_FE _ _ _ _ _ _ _ N F L Ep S1) as [N1 [F1 [L1 _]]].
-    destruct (jump_to_event_ok i _ _ N1 Ej) as [Hle N2].
-    eapply IH; [exact N2| |exact L1|exact H|exact Hs].
-    apply FE_set_now; auto.
-Qed.
+  (forall tr y, In (tr, y) lg -> NO y /\ FE i y) /\
+  exists xq, NO xq /\ FE i xq /\ (x' = xq \/ (offers = [] /\ exists z, x' = set_now xq z)).
 
 Theorem step_FE fuel x0 trs tm x' offers lg :
   tm <> TMJumpByOne -> NO x0 -> FE i x0 -> step sigma i fuel x0 trs tm = SOk x' offers lg -> sides lg ->
   result_FE lg x' offers.
-Proof.
-  intros Htm N F H Hs. unfold step in H.
-  destruct (match trs with [] => Ok (x0, 0, []) | _ :: _ => process_transitions sigma i (sorted_by_transport trs) x0 0 [] end)
-    as [[[x1 nerr] lg1]|e] eqn:Ep; [|discriminate].
-  destruct (Nat.ltb 0 nerr); [discriminate|].
-  destruct (run_time_machine i tm x1) as [t|e] eqn:Et; [|discriminate].
-  destruct (create_timed_transitions i (set_now x1 t)) as [timed|e]; [|discriminate].
-  destruct (get_possible_transitions i (set_now x1 t)) as [poss|e]; [|discriminate].
-  destruct (filter_teleport i (set_now x1 t) poss) as [tele|e]; [|discriminate].
-  destruct (timed_loop_log_ext _ _ _ _ _ _ _ _ H) as [d Hd].
-  assert (S1 : sides lg1) by (rewrite Hd in Hs; eapply sides_prefix; eauto).
-  assert (H1 : NO x1 /\ FE i x1 /\ all_FE lg1).
-  { destruct trs.
-    - inversion Ep; subst. split; [exact N|]. split; [exact F|]. intros tr y [].
-    - destruct (process_FE _ _ _ _ _ _ _ N F (fun tr y (Hin : In (tr, y) []) => match Hin with end) Ep S1) as [A [B [C _]]]. auto. }
-  destruct H1 as [N1 [F1 L1]].
-  destruct (run_tm_ok i tm _ _ Htm N1 Et) as [Hle N2].
-  eapply timed_loop_FE; [exact N2| |exact L1|exact H|exact Hs].
-  apply FE_set_now; auto.
-Qed.
+Proof. intros. eapply (step_PS sigma i Hnn (FE i) transit_side_b FE_apply FE_now); eauto. Qed.
 
 Theorem mw_step_FE fuel r m a r' m' lg :
   NO (r_x r) -> FE i (r_x r) -> mw_step sigma i fuel r m a = MOk r' m' lg -> sides lg ->
   result_FE lg (r_x r') (r_offers r').
-Proof.
-  intros N F H Hs. unfold mw_step in H.
-  destruct (r_offers r) as [|o1 rest]; [discriminate|].
-  destruct (negb ((a =? 0)%Z || (a =? 1)%Z)); [discriminate|].
-  destruct (a =? 0)%Z.
-  - destruct rest as [|o2 rest].
-    + destruct (step sigma i fuel (r_x r) [] TMForceJump) as [x' offers lg'| | |] eqn:Es; try discriminate.
-      destruct offers.
-      * destruct (all_in_output i x'); [|discriminate]. inversion H; subst. eapply step_FE; eauto; discriminate.
-      * inversion H; subst. eapply step_FE; eauto; discriminate.
-    + inversion H; subst; simpl. split; [intros tr y []|]. exists (r_x r). split; [exact N|]. split; [exact F|]. left; reflexivity.
-  - destruct (step sigma i fuel (r_x r) [o1] TMJumpToEvent) as [x' offers lg'| | |] eqn:Es; try discriminate.
-    inversion H; subst. eapply step_FE; eauto; discriminate.
-Qed.
-
-(* reachability with the side condition on every micro-log *)
-Inductive reachS (fuel : nat) (x0 : state) (joker0 : Z) (ta : bool) : result -> mw -> Prop :=
-| rs_reset r m lg : mw_reset sigma i fuel x0 joker0 ta (mkMw joker0 0 0 ta) = MOk r m lg -> sides lg -> reachS fuel x0 joker0 ta r m
-| rs_step r m a r' m' lg : reachS fuel x0 joker0 ta r m -> mw_step sigma i fuel r m a = MOk r' m' lg -> sides lg ->
-                            reachS fuel x0 joker0 ta r' m'.
+Proof. intros. eapply (mw_step_PS sigma i Hnn (FE i) transit_side_b FE_apply FE_now); eauto. Qed.
 
 Lemma reachS_inv fuel x0 joker0 ta r m :
   NO x0 -> FE i x0 -> reachS fuel x0 joker0 ta r m ->
   exists xq, NO xq /\ FE i xq /\ (r_x r = xq \/ (r_offers r = [] /\ exists z, r_x r = set_now xq z)).
-Proof.
-  intros N F H. induction H as [r m lg H Hs|r m a r' m' lg H IH Hm Hs].
-  - unfold mw_reset in H.
-    destruct (step sigma i fuel x0 [] TMJumpToEvent) as [x' offers lg'| | |] eqn:Es; try discriminate.
-    inversion H; subst. simpl. destruct (step_FE fuel x0 [] TMJumpToEvent _ _ _ ltac:(discriminate) N F Es Hs) as [_ Q]. exact Q.
-  - destruct IH as [xq [Nq [Fq [E|[E _]]]]].
-    + subst xq. destruct (mw_step_FE _ _ _ _ _ _ _ Nq Fq Hm Hs) as [_ Q]. exact Q.
-    + unfold mw_step in Hm. rewrite E in Hm. discriminate.
-Qed.
+Proof. intros. eapply (reachG_inv sigma i Hnn (FE i) transit_side_b FE_apply FE_now); eauto. Qed.
 
 Lemma feasible_set_now x z : feasible_b i (set_now x z) = feasible_b i x.
 Proof. reflexivity. Qed.
@@ -210,40 +83,11 @@ Proof.
   - unfold mw_step in Hm. rewrite E in Hm. discriminate.
 Qed.
 
-(* executable form of the side condition and of reachS (for examples and the monitors) *)
-Definition sides_b (lg : mlog) : bool := forallb (fun p => transit_side_b (fst p) (snd p)) lg.
-
 Lemma sides_b_sound lg : sides_b lg = true -> sides lg.
-Proof. intros H tr y Hin. unfold sides_b in H. rewrite forallb_forall in H. apply (H (tr, y) Hin). Qed.
-
-Definition runS (fuel : nat) (x0 : state) (joker0 : Z) (ta : bool) (acts : list Z) : option (result * mw) :=
-  match mw_reset sigma i fuel x0 joker0 ta (mkMw joker0 0 0 ta) with
-  | MOk r m lg =>
-      if sides_b lg then
-        fold_left (fun acc a => match acc with
-                                | Some (r, m) => match mw_step sigma i fuel r m a with
-                                                 | MOk r' m' lg' => if sides_b lg' then Some (r', m') else None
-                                                 | _ => None end
-                                | None => None end) acts (Some (r, m))
-      else None
-  | _ => None
-  end.
+Proof. apply sidesG_b_sound. Qed.
 
 Lemma runS_reach fuel x0 joker0 ta acts r m :
   runS fuel x0 joker0 ta acts = Some (r, m) -> reachS fuel x0 joker0 ta r m.
-Proof.
-  unfold runS. destruct (mw_reset sigma i fuel x0 joker0 ta (mkMw joker0 0 0 ta)) as [r0 m0 lg0| | |] eqn:Er; try discriminate.
-  destruct (sides_b lg0) eqn:Es; [|discriminate].
-  assert (R0 : reachS fuel x0 joker0 ta r0 m0) by (eapply rs_reset; eauto; apply sides_b_sound; auto).
-  clear Er Es. revert r0 m0 R0. induction acts as [|a acts IH]; intros r0 m0 R0 H; simpl in H.
-  - inversion H; subst; auto.
-  - destruct (mw_step sigma i fuel r0 m0 a) as [r1 m1 lg1| | |] eqn:Em.
-    + destruct (sides_b lg1) eqn:Es.
-      * eapply IH; [|exact H]. eapply rs_step; eauto. apply sides_b_sound; auto.
-      * exfalso. clear -H. induction acts; simpl in H; [discriminate|auto].
-    + exfalso. clear -H. induction acts; simpl in H; [discriminate|auto].
-    + exfalso. clear -H. induction acts; simpl in H; [discriminate|auto].
-    + exfalso. clear -H. induction acts; simpl in H; [discriminate|auto].
-Qed.
+Proof. apply runG_reach. Qed.
 
 End S.
